@@ -235,3 +235,23 @@ func (c *Ctx) TrackFootprint(on bool) {}
 func (c *Ctx) Or(a, b bool) bool      { return a || b }
 func (c *Ctx) And(a, b bool) bool     { return a && b }
 func (c *Ctx) Implies(a, b bool) bool { return !a || b }
+
+// IteU8 / IteU32 / IteInt: non-forking selection.
+func (c *Ctx) IteU8(cond bool, a, b uint8) uint8 {
+	if cond {
+		return a
+	}
+	return b
+}
+func (c *Ctx) IteU32(cond bool, a, b uint32) uint32 {
+	if cond {
+		return a
+	}
+	return b
+}
+func (c *Ctx) IteInt(cond bool, a, b int) int {
+	if cond {
+		return a
+	}
+	return b
+}
